@@ -1,20 +1,21 @@
 #!/bin/sh
-# usage: harness/ingest_neutral.sh <Cxx> ...   copies /tmp/neutral/<Cxx>/_neutral/{a,b,c}.diff to neutral/<Cxx>_{a,b,c}/ and confirms each
+# usage: [ROOT=/tmp/neutral2 KINDS="d e"] harness/ingest_neutral.sh <Cxx> ...   copies /tmp/neutral/<Cxx>/_neutral/{a,b,c}.diff to neutral/<Cxx>_{a,b,c}/ and confirms each
 # (fresh worktree: patch applies, unit suite at its baseline, the author's compare.py still passes)
+ROOT=${ROOT:-/tmp/neutral}; KINDS=${KINDS:-a b c}
 for P in "$@"; do
-  S=/tmp/neutral/$P/_neutral
+  S=$ROOT/$P/_neutral
   [ -d $S ] || { echo "no delivery for $P"; continue; }
-  for K in a b c; do
+  for K in $KINDS; do
     [ -f $S/$K.diff ] || { echo "$P: no $K.diff"; continue; }
     D=/verif/neutral/${P}_$K
     mkdir -p $D
     cp $S/$K.diff $D/patch.diff
     [ -f $S/compare.py ] && cp $S/compare.py $D/compare.py
     [ -f $S/notes.md ] && cp $S/notes.md $D/notes.md
-    KIND=$(case $K in a) echo "pure refactor";; b) echo "equivalent algorithm";; c) echo "robustness / hygiene";; esac)
+    KIND=$(case $K in a) echo "pure refactor";; b) echo "equivalent algorithm";; c) echo "robustness / hygiene";; d) echo "state / caching / I-O restructuring";; e) echo "interface-level tidy-up";; esac)
     printf '{"property": "%s", "kind": "%s", "expected": "OK"}\n' $P "$KIND" > $D/meta.json
     /venv/bin/python /verif/harness/confirm_seed.py $D /tmp/confirm_n_${P}_$K.json --neutral > /tmp/confirm_n_${P}_$K.out 2>&1 &
   done
 done
 wait
-for P in "$@"; do for K in a b c; do echo "${P}_$K: $(tail -1 /tmp/confirm_n_${P}_$K.out 2>/dev/null | cut -c1-230)"; done; done
+for P in "$@"; do for K in $KINDS; do echo "${P}_$K: $(tail -1 /tmp/confirm_n_${P}_$K.out 2>/dev/null | cut -c1-230)"; done; done
